@@ -266,12 +266,22 @@ func (r *rewriter) replace(c ast.Node, isRoot bool) (string, bool) {
 					r.stats["os.NewFile"]++
 					return "vsys.NewFile", true
 				}
+				switch x.Sel.Name {
+				case "Lstat", "ReadDir", "Readlink":
+					// same call, result folded into the calling thread's history (state-key pruning)
+					r.stats["os."+x.Sel.Name]++
+					return "vsched.Os" + x.Sel.Name, true
+				}
 			case "time":
 				switch x.Sel.Name {
 				case "Sleep":
 					return "vsched.Sleep", true
-				case "After", "NewTimer", "AfterFunc", "Tick", "NewTicker":
-					r.errorf(x, "unsupported time.%s (timers are not modelled)", x.Sel.Name)
+				case "After", "NewTimer", "AfterFunc", "Timer":
+					// no clock: a timer may fire at any point after it was armed (vsched/timer.go)
+					r.stats["time."+x.Sel.Name]++
+					return "vsched." + x.Sel.Name, true
+				case "Tick", "NewTicker", "Ticker":
+					r.errorf(x, "unsupported time.%s (tickers are not modelled)", x.Sel.Name)
 				}
 			case "atomic":
 				// atomics are single indivisible steps; left as they are
